@@ -945,9 +945,22 @@ impl Element {
                     let mut prev_path = None;
                     if self.element_name() == ElementName::ShortName {
                         // this SHORT-NAME element might be newly created, in which case there is no previous path
-                        if self.character_data().is_some() {
+                        if let Some(CharacterData::String(old_name)) = self.character_data() {
                             if let Some(parent) = self.parent()? {
-                                prev_path = Some(parent.path()?);
+                                let path = parent.path()?;
+                                if let CharacterData::String(new_name) = &chardata {
+                                    if *new_name != old_name {
+                                        let new_path =
+                                            format!("{}{new_name}", path.strip_suffix(&old_name).unwrap_or(&path));
+                                        if model.get_element_by_path(&new_path).is_some() {
+                                            return Err(AutosarDataError::DuplicateItemName {
+                                                element: parent.element_name(),
+                                                item_name: new_name.clone(),
+                                            });
+                                        }
+                                    }
+                                }
+                                prev_path = Some(path);
                             }
                         }
                     };
